@@ -78,6 +78,78 @@ def _regex_info(pattern: str):
     return {"groups": ngroups, "names": names, "optional": optional, "prefix": "".join(lits), "suffix": "".join(reversed(tail)), "tree": tree}
 
 
+def _relation_rule(ctx):
+    """C03.R5: the referrer/target relation that decides relative vs absolute paths, evaluated (abstractly: elements
+    are attribute bags with `parent` and `type`) on every pair of positions below a common ancestor chain, depths 0..4,
+    and compared with its definition: the innermost repeat that encloses both, at max(distance) steps."""
+    import itertools
+    r5 = Rule("C03", "C03.R5", "same-repeat relation on all small trees", floor=150,
+              necessary="a relation computed wrongly for some pair of depths makes the reference absolute where it must be relative (or the reverse)")
+    se = ctx.repo.cls("pyxform.survey_element:SurveyElement")
+    fn = se.methods["has_common_repeat_parent"]
+    rep = ctx.consts.get("pyxform.constants", "REPEAT", "C03.R5")
+
+    def mk(name, kind, parent):
+        return Obj(se, {"name": name, "type": rep if kind == "r" else ("group" if kind == "g" else kind), "parent": parent}, name=name)
+
+    n = 0
+    for prefix in ([], ["r"], ["g"], ["r", "g"], ["g", "r"], ["r", "r"], ["g", "g"], ["r", "g", "g"]):
+        for da, db in itertools.product(range(5), range(5)):
+            root = mk("data", "survey", None)
+            cur = root
+            chain = []
+            for i, k in enumerate(prefix):
+                cur = mk(f"p{i}", k, cur)
+                chain.append(cur)
+            top = cur
+            a = top
+            for i in range(da):
+                a = mk(f"a{i}", "g", a)
+            a = mk("qa", "text", a)
+            b = top
+            for i in range(db):
+                b = mk(f"b{i}", "g", b)
+            b = mk("qb", "text", b)
+            # oracle: innermost repeat of the common chain; distance of each leaf to it
+            want = ("Unrelated", None, None)
+            for depth_from_top, el in enumerate(reversed(chain)):
+                if el.attrs["type"] == rep:
+                    want = ("Common Ancestor Repeat", max(da, db) + 1 + depth_from_top, el)
+                    break
+            it = ctx.interp("C03.R5")
+            it.reset([])
+            try:
+                got = it.call_function(fn, [a, b], {}, None, fn.node)
+            except Raised as e:
+                got = f"raises {e.exc_name}{e.exc_args}"
+            n += 1
+            ok = isinstance(got, tuple) and len(got) == 3 and got[0] == want[0] and got[1] == want[1] and got[2] is want[2]
+            r5.check(ok, f"relation[prefix={'>'.join(prefix) or '-'} referrer depth {da} target depth {db}]",
+                     f"{want[0]}" + (f" at {want[1]} steps, ancestor {want[2].name}" if want[2] is not None else ""), fn.loc(),
+                     why_fail=f"got {got[:2] if isinstance(got, tuple) else got}")
+    return r5
+
+
+def sticky_sentinel(ctx, r2, rid):
+    """The name->element map marks a name carried by 2..5 elements as ambiguous (shared with C17)."""
+    scls = ctx.repo.cls("pyxform.survey:Survey")
+    sx = scls.methods["_setup_xpath_dictionary"]
+    # the sentinel is sticky: however many elements share a name (2..5, interleaved with others) it stays ambiguous
+    for k in (2, 3, 4, 5):
+        names = []
+        for i in range(k):
+            names += ["dup", f"u{i}"]
+        els_k = [Obj(None, {"name": n}, name=f"el_{n}_{i}") for i, n in enumerate(names)]
+        it = ctx.interp(rid, hooks={"fnname:iter_descendants": lambda i, a, k_, n, e=els_k: list(e)})
+        it.reset([])
+        so_k = Obj(scls, {"_xpath": None}, name="survey")
+        it.call_function(sx, [so_k], {}, None, sx.node)
+        mpk = so_k.attrs.get("_xpath")
+        r2.check(isinstance(mpk, dict) and "dup" in mpk and mpk["dup"] is None and all(mpk.get(f"u{i}") is els_k[2 * i + 1] for i in range(k)),
+                 f"_setup_xpath_dictionary[{k} elements with one name]", "a name carried by several elements stays marked ambiguous (None) whatever their number", sx.loc(),
+                 why_fail=f"dup -> {mpk.get('dup') if isinstance(mpk, dict) else mpk!r}")
+
+
 def run(ctx):
     repo = ctx.repo
     rules = []
@@ -198,6 +270,7 @@ def run(ctx):
     mp = so.attrs.get("_xpath")
     r2.check(isinstance(mp, dict) and mp.get("a", 0) is None and mp.get("b") is els[1] and mp.get("c") is els[3] and set(mp) == {"a", "b", "c"},
              "_setup_xpath_dictionary[a,b,a,c]", "a duplicated name maps to the None sentinel, unique names map to their element", sx.loc(), why_fail=f"map={mp!r}")
+    sticky_sentinel(ctx, r2, "C03.R2")
     flt = [c for c in walk_own(sx.node) if isinstance(c, ast.Call) and call_name(c) == "iter_descendants"]
     r2.check(len(flt) == 1 and "Question" in norm(flt[0]) and "Section" in norm(flt[0]), "_setup_xpath_dictionary:domain", "questions and sections are the referable elements", sx.loc())
     sxml = scls.methods["xml"]
@@ -353,6 +426,7 @@ def run(ctx):
     r4.check(any(isinstance(c, ast.Call) and call_name(c) == "_in_secondary_instance_predicate" for c in walk_own(vr.node)), "_var_repl_function:predicate detector",
              "references typed inside a secondary-instance predicate are detected and anchored too", vr.loc())
     rules.append(r4)
+    rules.append(_relation_rule(ctx))
     return rules
 
 
